@@ -275,19 +275,24 @@ def run_lists(c):
 
 # ---------------------------------------------------------------- (c) expression trees / field laws
 def tree_st(depth):
+  # by construction every sub-tree is a filter: bare numbers only appear as one operand of + - *
   fl = filt_st(need_b0=True).map(lambda ba: ("filt", ba))
   leaf = st.one_of(fl, fl, fl, filt_st().map(lambda ba: ("filt", ba)),
-                   st.sampled_from([1, -1, 2, -2, 3]).map(lambda v: ("int", v)),
                    st.integers(0, 3).map(lambda k: ("delay", k)))
   if depth == 0:
     return leaf
   sub = tree_st(depth - 1)
+  num = st.sampled_from([1, -1, 2, -2, 3]).map(lambda v: ("int", v))
+  small = tree_st(0) if depth > 1 else sub      # powers / substitutions nest shallowly: cost guard by construction
+  op = st.sampled_from(["+", "-", "*"])
   return st.one_of(
     leaf,
-    st.tuples(st.sampled_from(["+", "-", "*", "/"]), sub, sub),
-    st.tuples(st.just("**"), sub, st.integers(-2, 3)),
+    st.tuples(op, sub, sub), st.tuples(op, sub, sub),
+    st.tuples(op, sub, num), st.tuples(op, num, sub),
+    st.tuples(st.just("/"), sub, fl),
+    st.tuples(st.just("**"), small, st.integers(-2, 3)),
     st.tuples(st.just("neg"), sub),
-    st.tuples(st.just("subst"), sub, sub))
+    st.tuples(st.just("subst"), small, fl))
 
 
 def strat_trees(tier):
@@ -357,8 +362,11 @@ def ev(t, stats):
   if tag == "/":
     if not m2.n:
       raise Undefined
-    if not f2 and abs(m2.n.get(0, 0) / m2.d.get(0, 1)) not in (1, 2, F(1, 2)):
-      raise Undefined   # 1/c is a float in the library
+    if not f2:
+      # f / c multiplies by the float 1/c: coefficients become floats, which stop being exact once
+      # nested products push them past 2**53 (seen in a thorough run) - division by a bare number
+      # is covered by the signals clause, not inside trees
+      raise Undefined
     return r1 / r2, m1 / m2, True
   raise AssertionError(tag)
 
@@ -367,8 +375,29 @@ def depth(t):
   return 1 + max([depth(s) for s in t[1:] if isinstance(s, tuple) and s and isinstance(s[0], str)] or [0])
 
 
+def deg_bound(t):
+  """Cheap upper bound of the polynomial degrees an expression tree produces (cost guard)."""
+  tag = t[0]
+  if tag == "filt":
+    return max(len(t[1][0]), len(t[1][1]))
+  if tag == "int":
+    return 0
+  if tag == "delay":
+    return t[1] + 1
+  if tag == "neg":
+    return deg_bound(t[1])
+  if tag == "**":
+    return deg_bound(t[1]) * max(1, abs(t[2]))
+  if tag == "subst":
+    return 2 * max(1, deg_bound(t[1])) * max(1, deg_bound(t[2]))
+  return deg_bound(t[1]) + deg_bound(t[2])
+
+
 def run_trees(c):
   stats = set()
+  # the work grows exponentially with nested powers / substitutions: keep cases O(ms)
+  if deg_bound(c["t"]) > 40 or deg_bound(c["u"]) + deg_bound(c["v"]) > 24:
+    raise Reject()
   try:
     r, m, isf = ev(c["t"], stats)
   except Undefined:
